@@ -333,13 +333,8 @@ def r4(model, rep, r, an):
     rep.notes.append("derived, not separately checked: sum over phases of 24*P_i*t_i/T equals 24*(sum P_i t_i / T), the energy of the average row (linear identity in P_i, t_i)")
 
 
-_cache = {}
-
-
 def r2_r3_cache(model, rep, r, an):
     # r2_r3 is run once per report; its reader is reused by r4
-    key = id(rep)
-    if key not in _cache:
-        _cache.clear()
-        _cache[key] = r2_r3(model, rep, r, an)
-    return _cache[key]
+    if "_c07_r23" not in rep.__dict__:
+        rep.__dict__["_c07_r23"] = r2_r3(model, rep, r, an)
+    return rep.__dict__["_c07_r23"]
